@@ -81,11 +81,11 @@ pub fn run(ctx: &Ctx, ev: &mut Ev) {
     if ctx.want("enc") {
         let mut alpha: Vec<u32> = if th { SCALARS.to_vec() } else { SCALARS_SMALL.to_vec() }; alpha.push(0xD800); alpha.push(0x10FFFF); alpha.push(0x2603);
         let sp = EncSpace { encs: encoder_families(), alpha, maxlen: if tiny { 2 } else { 3 }, src16s: vec![false, true], vec_sinks: vec![false, true], repls: vec![true],
-            cap_offsets: vec![vec![0], vec![1], vec![2], vec![6], vec![10], vec![0, 12]], last_seps: vec![false, true], stride: if tiny { 53 } else if th { 2 } else { 1 }, fills: vec![0x22] };
+            cap_offsets: vec![vec![0], vec![1], vec![2], vec![6], vec![10], vec![0, 12]], last_seps: vec![false, true], stride: if tiny { 53 } else if th { 2 } else { 1 }, fills: vec![0x22], per_encoder: true };
         ev.note(format!("enc: {}", sp.describe()));
         enum_enc(ctx, ev, &sp, |case, _ng, ev| check_enc(&mut drv, ev, case, true));
         let sp2 = EncSpace { encs: ALL.iter().copied().collect(), alpha: vec![0x41, 0x2603, 0x1F4A9, 0xE9, 0xD800, 0x3042, 0x0], maxlen: 2, src16s: vec![false, true], vec_sinks: vec![false], repls: vec![true],
-            cap_offsets: vec![vec![0], vec![3]], last_seps: vec![false], stride: if tiny { 11 } else { 1 }, fills: vec![0x22] };
+            cap_offsets: vec![vec![0], vec![3]], last_seps: vec![false], stride: if tiny { 11 } else { 1 }, fills: vec![0x22], per_encoder: true };
         enum_enc(ctx, ev, &sp2, |case, _ng, ev| check_enc(&mut drv, ev, case, true));
     }
     if ctx.want("random") {
